@@ -7,6 +7,10 @@ import NxsModel.Lemmas.WorkerCert11
 import NxsModel.Lemmas.WorkerCert10
 import NxsModel.Lemmas.WorkerCert01
 import NxsModel.Lemmas.WorkerCert00
+import NxsModel.Lemmas.WorkerCertC11
+import NxsModel.Lemmas.WorkerCertC10
+import NxsModel.Lemmas.WorkerCertC01
+import NxsModel.Lemmas.WorkerCertC00
 namespace Nxs.Worker
 open Nxs.ThreadIR
 
@@ -137,5 +141,78 @@ theorem reach_of_path {c : Cfg} {is : List Nat} {p : State → Bool}
   cases hr : runPath c is init with
   | none => simp [hr] at h
   | some s => exact ⟨s, runPath_reach is Reach.init hr, by simpa [hr] using h⟩
+
+/-! ### the product with the history counters (`ReachC`, `RC`): certificate and lift -/
+
+theorem certC (c : Cfg) : certifiedC c (RC c) = true := by
+  match c with
+  | ⟨true, true⟩ => exact certC_tt
+  | ⟨true, false⟩ => exact certC_tf
+  | ⟨false, true⟩ => exact certC_ft
+  | ⟨false, false⟩ => exact certC_ff
+
+/-- cutting the counters off before or after a step gives the same cut-off counters -/
+theorem Calls.sat_upd_sat (ev : Ev) (g : Calls) : ((g.sat).upd ev).sat = (g.upd ev).sat := by
+  cases ev <;> simp only [Calls.upd, Calls.sat, Calls.mk.injEq] <;> omega
+
+/-- any set that passes the product certificate contains every reachable state together with its
+    cut-off history counters -/
+theorem memC_of_certified {c : Cfg} {r : List (State × Calls)} (hc : certifiedC c r = true)
+    {s : State} {g : Calls} (h : ReachC c s g) : (s, g.sat) ∈ r := by
+  simp only [certifiedC, Bool.and_eq_true, List.all_eq_true, List.contains_iff_mem] at hc
+  induction h with
+  | init => exact hc.1.1
+  | @step s g p _ hp ih =>
+    have := hc.2 _ ih (p.2.2, ((g.sat).upd p.2.1).sat)
+      (by simp only [stepC, List.mem_map]; exact ⟨p, hp, rfl⟩)
+    rwa [Calls.sat_upd_sat] at this
+
+theorem reachC_okStopRet {c : Cfg} {s : State} {g : Calls} (h : ReachC c s g) :
+    okStopRet c (s, g.sat) = true := by
+  have hc := certC c
+  have hm := memC_of_certified hc h
+  simp only [certifiedC, Bool.and_eq_true, List.all_eq_true] at hc
+  exact hc.1.2 _ hm
+
+/-- forgetting the counters: a `ReachC` state is a `Reach` state -/
+theorem ReachC.reach {c : Cfg} {s : State} {g : Calls} (h : ReachC c s g) : Reach c s := by
+  induction h with
+  | init => exact Reach.init
+  | @step s g p _ hp ih =>
+    exact Reach.step ih (by simp only [Nxs.Worker.step, List.mem_map]; exact ⟨p, hp, rfl⟩)
+
+/-- every `Reach` state carries history counters -/
+theorem Reach.exists_calls {c : Cfg} {s : State} (h : Reach c s) : ∃ g, ReachC c s g := by
+  induction h with
+  | init => exact ⟨_, ReachC.init⟩
+  | step _ hs ih =>
+    obtain ⟨g, hg⟩ := ih
+    simp only [Nxs.Worker.step, List.mem_map] at hs
+    obtain ⟨p, hp, rfl⟩ := hs
+    exact ⟨_, ReachC.step hg hp⟩
+
+theorem expected_le_one (b : Bool) : expected b ≤ 1 := by cases b <;> simp [expected]
+
+/-- a state in which the controller's next step is the return of `thread_stop` has that labelled step -/
+theorem stopReturns_step {c : Cfg} {s : State} (h : stopReturns c s = true) :
+    ∃ v s', (Who.ctl, Ev.ret .stop v, s') ∈ stepL c s := by
+  simp only [stopReturns, List.any_eq_true] at h
+  obtain ⟨⟨ev, s'⟩, hp, hm⟩ := h
+  have hin : (Who.ctl, ev, s') ∈ stepL c s := by
+    simp only [stepL, List.mem_append, List.mem_map]
+    exact Or.inl (Or.inl ⟨(ev, s'), hp, rfl⟩)
+  match ev, hm, hin with
+  | .ret .stop v, _, hin => exact ⟨v, s', hin⟩
+
+/-- non-vacuity helper for `stop_returned_final_once`: a reachable state (given by a path) in which a
+    stop call on a started worker is about to return yields the hypotheses of that theorem -/
+theorem stop_return_exists {c : Cfg}
+    (h : ∃ s, Reach c s ∧ (fun s => s.started && stopReturns c s) s = true) :
+    ∃ s g v s', ReachC c s g ∧ s.started = true ∧ (Who.ctl, Ev.ret .stop v, s') ∈ stepL c s := by
+  obtain ⟨s, hr, hp⟩ := h
+  simp only [Bool.and_eq_true] at hp
+  obtain ⟨g, hg⟩ := hr.exists_calls
+  obtain ⟨v, s', hs'⟩ := stopReturns_step hp.2
+  exact ⟨s, g, v, s', hg, hp.1, hs'⟩
 
 end Nxs.Worker
